@@ -1,5 +1,8 @@
 import LitexProofs.Namer.GetName
 import LitexProofs.Namer.KeywordFacts
+import LitexProofs.Namer.Fixed
+import LitexProofs.Namer.Tree
+import LitexProofs.Namer.Perm
 import LitexModel.Namer.Tree
 import LitexModel.Generated.Keywords
 /-
@@ -159,5 +162,136 @@ theorem name_legal (kw : List String) (base : SigId → String) (reqs : List Sig
     (s : SigId) (a : String) (h : (s, a) ∈ answers kw base reqs) : isIdent a = true := by
   obtain ⟨n, _, rfl⟩ := answersFrom_spec _ reqs s a h
   exact isIdent_suffixed (hb s (answersFrom_mem_reqs _ reqs s _ h)) n
+
+/-! ## The repaired `get_name` (proposed fix F7, `getNameFixed`: skip numbered candidates already in use and
+    record a numbered name as used).  NOT the code of the current tree: the harness ties this model to a
+    harness-side copy of the patched method, so that the fix can be adopted by switching the correspondence.
+    For it the full statements hold, without any hypothesis on the base names or the keyword table. -/
+
+/-- Full uniqueness: two different signals never receive the same identifier. -/
+theorem getNameFixed_injective (kw : List String) (base : SigId → String) (reqs : List SigId)
+    (s t : SigId) (a : String) (hs : (s, a) ∈ answersFixed kw base reqs) (ht : (t, a) ∈ answersFixed kw base reqs) :
+    s = t := by
+  obtain ⟨n, hn, rfl⟩ := answersFromF_spec _ reqs s a hs
+  obtain ⟨m, hm, heq⟩ := answersFromF_spec _ reqs t _ ht
+  exact ((InvF.init (kw := kw) (base := base)).runFrom reqs).distinct s t n m hn hm heq
+
+/-- Stability of the repaired method. -/
+theorem getNameFixed_stable (kw : List String) (base : SigId → String) (pre post : List SigId) (s : SigId) :
+    (getNameFixed (runFromF base (getNameFixed (runFixed kw base pre) (base s) s).1 post) (base s) s).2 =
+      (getNameFixed (runFixed kw base pre) (base s) s).2 := by
+  obtain ⟨n, hn, ha⟩ := getNameFixed_answer (runFixed kw base pre) (base s) s
+  rw [ha, getNameFixed_named (runFromF_keeps post hn)]
+
+/-- No issued identifier is in the keyword set the namespace was seeded with — for every keyword set. -/
+theorem getNameFixed_not_reserved (kw : List String) (base : SigId → String) (reqs : List SigId)
+    (s : SigId) (a : String) (h : (s, a) ∈ answersFixed kw base reqs) : a ∉ kw := by
+  obtain ⟨n, hn, rfl⟩ := answersFromF_spec _ reqs s a h
+  exact ((InvF.init (kw := kw) (base := base)).runFrom reqs).not_kw s n hn
+
+/-- Legality is preserved by the repaired method as well. -/
+theorem getNameFixed_legal (kw : List String) (base : SigId → String) (reqs : List SigId)
+    (hb : ∀ s ∈ reqs, isIdent (base s) = true)
+    (s : SigId) (a : String) (h : (s, a) ∈ answersFixed kw base reqs) : isIdent a = true := by
+  obtain ⟨n, _, rfl⟩ := answersFromF_spec _ reqs s a h
+  exact isIdent_suffixed (hb s (answersFromF_mem_reqs _ reqs s _ h)) n
+
+/-- Non-vacuity / the former witnesses under the repaired method: `x, x, x_1` → `x, x_1, x_1_1`, and in the
+    other request order `x_1, x, x` → `x_1, x, x_2`; `if, if_1` → `if_1, if_1_1`. -/
+example : answersFixed ["if", "wire"] (fun s => if s = 2 then "x_1" else "x") [0, 1, 2] =
+    [(0, "x"), (1, "x_1"), (2, "x_1_1")] := by decide +kernel
+example : answersFixed ["if", "wire"] (fun s => if s = 2 then "x_1" else "x") [2, 0, 1] =
+    [(2, "x_1"), (0, "x"), (1, "x_2")] := by decide +kernel
+example : answersFixed ["if", "wire"] (fun s => if s = 0 then "if" else "if_1") [0, 1] =
+    [(0, "if_1"), (1, "if_1_1")] := by decide +kernel
+
+/-! ## The hierarchical dictionary (`_build_signal_name_dict`) and the whole `build_signal_namespace`
+
+  `groupName g s` is the name `_build_signal_name_dict_for_group` gives signal `s` inside its `related`-group
+  `g` (hierarchy tree, `use_name` by conflicts, `use_number` second pass, DUID ranks); `buildDict sigs i` the
+  final dictionary entry (`related` ancestors prefixed); `namespaceAnswers kw sigs extra reqs` the answers of
+  `get_name` on the namespace built from `sigs` (memories/instances as `extra` override-only objects). -/
+
+/-- Python iterates *sets* of signals while building a group dictionary; the result does not depend on the
+    iteration order: any permutation of the group gives every signal the same name. -/
+theorem buildDict_perm (g₁ g₂ : List GSig) (h : g₁.Perm g₂) (s : GSig) : groupName g₁ s = groupName g₂ s :=
+  groupName_perm h s
+
+/-- The tree node a signal ends in always has `use_name` set (it has a signal of its own), so the element
+    list joined into the signal's name is never empty. -/
+theorem buildDict_nonempty (g : List GSig) (s : GSig) (hs : s ∈ g) (hne : s.bt ≠ []) :
+    let ps := g.map fun t => keyedPath (tagged g) t.bt
+    elems (fuelOf ps) ps (keyedPath (tagged g) s.bt) ≠ [] :=
+  elems_ne_nil _ _ _ (keyedPath_ne_nil _ _ hne) (List.mem_map.mpr ⟨s, hs, rfl⟩)
+
+/-- Legality of dictionary names: if every back-trace is non-empty with legal step names, every dictionary
+    entry (joined with `_`, numbered, DUID-ranked, prefixed by `related` ancestors) is a legal identifier. -/
+theorem buildDict_legal (sigs : List Sig) (h : LegalSigs sigs) (i : Nat) (hi : i < sigs.length) :
+    isIdent (buildDict sigs i) = true := buildDict_legal' h hi
+
+/-- What the driver executes (and the correspondence compares with the real code) is the per-signal
+    definition the theorems speak about. -/
+theorem dictList_eq_buildDict (sigs : List Sig) (i : Nat) (hi : i < sigs.length) :
+    (dictList sigs)[i]? = some (buildDict sigs i) := dictList_getElem? sigs i hi
+
+theorem groupNames_eq_groupName (g : List GSig) : groupNames g = g.map (groupName g) := groupNames_eq g
+
+/-- End to end, uniqueness: on the namespace built from any signal set, two different objects never receive
+    the same identifier, provided no requested base name is another requested base name plus `_k`. -/
+theorem namespace_injective_partial (kw : List String) (sigs : List Sig) (extra : List String)
+    (reqs : List Nat)
+    (hshape : noSuffixShapedBase (reqs.map fun i => (baseList sigs ++ extra)[i]?.getD "") = true)
+    (s t : SigId) (a : String)
+    (hs : (s, a) ∈ namespaceAnswers kw sigs extra reqs) (ht : (t, a) ∈ namespaceAnswers kw sigs extra reqs) :
+    s = t :=
+  getName_injective_partial kw _ reqs hshape s t a hs ht
+
+/-- End to end, reserved words: no identifier issued by a namespace seeded with the regenerated LiteX table
+    is an IEEE 1364-2005 keyword — whatever the back-traces and overrides are. -/
+theorem namespace_not_reserved (sigs : List Sig) (extra : List String) (reqs : List Nat)
+    (s : SigId) (a : String) (h : (s, a) ∈ namespaceAnswers keywords sigs extra reqs) : a ∉ ieee1364_2005 :=
+  name_not_reserved_1364 _ reqs s a h
+
+/-- End to end, legality: legal step names and legal overrides give legal identifiers. -/
+theorem namespace_legal (kw : List String) (sigs : List Sig) (extra : List String) (reqs : List Nat)
+    (hsigs : LegalSigs sigs) (hextra : ∀ e ∈ extra, isIdent e = true)
+    (hreqs : ∀ i ∈ reqs, i < sigs.length + extra.length)
+    (s : SigId) (a : String) (h : (s, a) ∈ namespaceAnswers kw sigs extra reqs) : isIdent a = true := by
+  refine name_legal kw _ reqs ?_ s a h
+  intro (i : Nat) hi
+  have hlen : (baseList sigs).length = sigs.length := by
+    simp [baseList, dictList_length]
+  by_cases hlt : i < sigs.length
+  · have : (baseList sigs ++ extra)[i]? = some (baseOf sigs i) := by
+      rw [List.getElem?_append_left (hlen ▸ hlt)]
+      exact baseList_getElem? sigs i hlt
+    simp only [this, Option.getD_some]
+    exact baseOf_legal hsigs hlt
+  · have hi2 := hreqs i hi
+    have hge : (baseList sigs).length ≤ i := by rw [hlen]; exact Nat.le_of_not_lt hlt
+    have hidx : i - (baseList sigs).length < extra.length := by rw [hlen]; omega
+    have : (baseList sigs ++ extra)[i]? = some (extra[i - (baseList sigs).length]) := by
+      rw [List.getElem?_append_right hge]
+      simp [hidx]
+    simp only [this, Option.getD_some]
+    exact hextra _ (List.getElem_mem _)
+
+/-- Non-vacuity of the dictionary theorems: two sub-modules `m` (numbers 0 and 1) with signals `x`, `w` / `x`,
+    a signal with a `related` parent, and an override named like a keyword — the hierarchy (`use_name`),
+    number (`use_number`) and `related` paths are all taken, a memory named like a dictionary entry is
+    renamed, and the group dictionary is the same for another listing order. -/
+example :
+    let sigs : List Sig := [
+      ⟨0, [("top", 0), ("m", 0), ("x", 0)], none, none⟩,
+      ⟨1, [("top", 0), ("m", 1), ("x", 1)], none, none⟩,
+      ⟨2, [("top", 0), ("m", 0), ("w", 0)], none, none⟩,
+      ⟨3, [("top", 0), ("y", 0)], some 0, none⟩,
+      ⟨4, [("top", 0), ("z", 0)], none, some "if"⟩]
+    let g : List GSig := [⟨0, [("m", 0), ("x", 0)]⟩, ⟨1, [("m", 1), ("x", 1)]⟩, ⟨2, [("m", 0), ("w", 0)]⟩]
+    dictList sigs = ["m0_x", "m1_x", "m0_w", "m0_x_y", "z"] ∧
+    (namespaceAnswers ["if"] sigs ["m0_x"] [4, 0, 5, 3]).map (·.2) = ["if_1", "m0_x", "m0_x_1", "m0_x_y"] ∧
+    g.map (groupName g) = ["m0_x", "m1_x", "m0_w"] ∧
+    g.map (groupName g.reverse) = ["m0_x", "m1_x", "m0_w"] := by
+  decide +kernel
 
 end Litex.C02
